@@ -5,7 +5,7 @@ package main
 // on the unchanged tree although no defect is known behind it (solver instability, a contract of another
 // function that is not strong enough yet). Withdrawn obligations are not run and not counted; the evidence
 // lists them under coverage.not_claimed, and those of kind pre@ / inv. are assumptions of the obligations
-// that follow them. DESIGN.md §9 logs every entry.
+// that follow them. DESIGN.md §11 lists the entries by function.
 
 import (
 	"encoding/json"
@@ -15,7 +15,7 @@ import (
 )
 
 type unclaimedEntry struct {
-	Obligation string `json:"obligation"` // exact name, or a regular expression when "regexp": true
+	Obligation string `json:"obligation"` // exact name, or a regular expression (anchored) when "regexp": true
 	Regexp     bool   `json:"regexp,omitempty"`
 	Reason     string `json:"reason"`
 }
@@ -26,18 +26,37 @@ type unclaimedSet struct {
 	why   []string
 }
 
-func loadUnclaimed() map[string]string {
-	out := map[string]string{}
+func (u *unclaimedSet) match(name string) (string, bool) {
+	if r, ok := u.exact[name]; ok {
+		return r, true
+	}
+	for i, re := range u.res {
+		if re.MatchString(name) {
+			return u.why[i], true
+		}
+	}
+	return "", false
+}
+
+func loadUnclaimed() *unclaimedSet {
+	u := &unclaimedSet{exact: map[string]string{}}
 	b, err := os.ReadFile(filepath.Join(verifDir, "unclaimed.json"))
 	if err != nil {
-		return out
+		return u
 	}
 	var es []unclaimedEntry
 	if json.Unmarshal(b, &es) != nil {
-		return out
+		return u
 	}
 	for _, e := range es {
-		out[e.Obligation] = e.Reason
+		if e.Regexp {
+			if re, err := regexp.Compile("^(?:" + e.Obligation + ")$"); err == nil {
+				u.res = append(u.res, re)
+				u.why = append(u.why, e.Reason)
+			}
+			continue
+		}
+		u.exact[e.Obligation] = e.Reason
 	}
-	return out
+	return u
 }
